@@ -716,6 +716,20 @@ def b5_b6(run: Run, prog, cy, cfuncs, shapes, handoffs, sites):
         # preconditions enforced by the wrapper (`if n < 1: raise ...`)
         guarded = _guarded_positive(h)
         run.extra.setdefault("guarded_positive", {})[h.cname] = sorted(guarded)
+        # scalars that merge a clamped cast with its clamp value (if/else joins):
+        # their range follows the ranges just established for the casts
+        for sname, (pa, pb) in getattr(it, "joins", {}).items():
+            la, ha = it.bounds(pa)
+            lb, hb = it.bounds(pb)
+            lo = hi = None
+            if la is not None and lb is not None:
+                lo = la if it.leq(la, lb, guarded) else (lb if it.leq(lb, la, guarded)
+                                                         else None)
+            if ha is not None and hb is not None:
+                hi = ha if it.leq(hb, ha, guarded) else (hb if it.leq(ha, hb, guarded)
+                                                         else None)
+            if sname in it.syms:
+                it.syms[sname].lo, it.syms[sname].hi = lo, hi
         # re-resolve data symbols whose content came from those casts
         for base, syms in it.data_syms.items():
             vals = it.content.get(base, [])
@@ -913,8 +927,18 @@ def _lower_fact(run, cy, cf, h, fvar, it: CInterp, sites) -> bool:
                     if part.k == "bin" and part.a[0] == "-" and part.a[2].k == "name":
                         sub = part.a[2].a[0]
                         der = part.a[1]
+                        # *p  |  p[k]  |  *(p + k): the pointer the sample is read from
                         if der.k == "deref" and der.a[0].k == "name":
                             bases.add(der.a[0].a[0])
+                        elif der.k == "index" and der.a[0].k == "name":
+                            bases.add(der.a[0].a[0])
+                        elif der.k == "deref":
+                            pn = [n_ for n_ in names_in(der.a[0])
+                                  if it.env.get(n_, ("",))[0] == "ptr" or
+                                  (n_ in dict(cf.params) and
+                                   is_ptr_type(dict(cf.params)[n_]))]
+                            if len(pn) == 1:
+                                bases.add(pn[0])
     if sub is None or not bases:
         return False
     # map local pointers back to the parameter they were derived from
